@@ -602,7 +602,7 @@ def check(run):
     lower_bad, lower_programs = None, []
     nprog = 120 if quick else 1500
     streams = [
-        ('main', progs.Opts(loop_else=False, reads='safe', mutation=True, boolops=True, comprehension=True, global_=True,
+        ('main', progs.Opts(loop_else=False, reads='safe', mutation=True, boolops=True, comprehension=True, global_=True, delete=True,
                             nested_def=True, max_stmts=14, fresh_for_targets=True), 0.55),
         ('control', progs.Opts(loop_else=False, reads='safe', max_stmts=18, max_depth=5, fresh_for_targets=True), 0.2),
         ('helpers', progs.Opts(loop_else=False, reads='safe', boolops=True, max_stmts=10, helper_calls=True,
